@@ -777,7 +777,7 @@ func TestC37(t *testing.T) {
 	r.Assume("MaxTxInBlock = 0 means no count limit (the statement's 'configured number' applies when it is positive)")
 	r.Assume("GetTxPool: an entry that is neither handed out nor reported old is acceptable only when the count limit was reached; completeness of the handed-out list is not demanded")
 	r.Assume("porcupine v1.3.0 decides linearizability; result Unknown (timeout) is counted as inconclusive, never as a violation")
-	nHist := r.N(2000, 60000)
+	nHist := r.N(2000, 200000)
 	poolHistories(r, nHist, true)
 	r.Require("porcupine_ok_perkey", nHist/2-nHist/50)
 	r.Require("porcupine_ok_global", nHist/2-nHist/50)
@@ -802,7 +802,7 @@ func TestC37Race(t *testing.T) {
 	r := kit.Start(t, "C37", "exploration")
 	defer r.Finish()
 	r.Rule("same generators as the main phase, run under -race (no porcupine in this phase); smaller counts")
-	poolHistories(r, r.N(300, 6000), false)
+	poolHistories(r, r.N(300, 20000), false)
 }
 
 // TestC37RaceServer: the server-level scenarios (without the capacity fill) under the race detector
